@@ -277,6 +277,20 @@ def gen_params(rng, case, pi_method=None, estimands=None):
         mp = {}
         if pi_method == "nonparametric" and rng.random() < 0.3:
             mp["robust"] = True
+    # less common model parameters (each one switches on a code path the defaults never reach)
+    if rng.random() < 0.25:
+        mp["turnout_factor_lower"], mp["turnout_factor_upper"] = rng.choice([(0.6, 1.8), (0.25, 3.0), (0.5, 1.5)])
+    if rng.random() < 0.15:
+        mp["outlier_z_threshold"] = rng.choice([1.5, 3.0])
+    if pi_method == "gaussian":
+        if rng.random() < 0.25:
+            mp["winsorize"] = True
+        if rng.random() < 0.25:
+            mp["beta"] = rng.choice([1.5, 2])
+    if pi_method != "bootstrap" and features and rng.random() < 0.2:
+        mp["lambda_"] = rng.choice([0.1, 1.0])
+    if pi_method == "bootstrap" and rng.random() < 0.2:
+        mp["lambda_"] = rng.choice([0.0, 1.0, 10.0])
     fes = {}
     if rng.random() < 0.35 and pi_method != "bootstrap":
         fes = rng.choice([{"postal_code": "all"}, {"county_classification": "all"}, ["county_classification"]])
